@@ -74,6 +74,13 @@ def apply(o, objs, variant):
     if op == "lt": return a < b
     if op == "gt": return a > b
     if op == "eq": return a == b
+    if op in ("iadd", "isub", "imul", "idiv"):
+        r = a                      # a second reference to the left operand, then the augmented assignment on it
+        if op == "iadd": r += b
+        elif op == "isub": r -= b
+        elif op == "imul": r *= b
+        else: r /= b
+        return r
     if op in ("mx11", "mx12"):
         from PEPit import PSDMatrix
         m = PSDMatrix([[a, b], [b, a]])
